@@ -23,7 +23,7 @@ EXPLANATION = (
     'queue while handling a sync message, the live actor empties that queue only in its main loop and awaits replies of the'
     " store actor in its handlers - so the queue must not be bounded. (R7) every return of the store actor's loop function "
     'is dominated by closing and draining its inbox, so that no request accepted into it is left unanswered when the actor '
-    "stops. (R8) the store actor forwards SyncInitialMessage / SyncProcessMessage one to one and returns the threaded session state (the store-actor handler evaluated with the fields of the request as named tokens and gates / store / replica calls answered by an oracle, each step also failing in turn: the own fields of the request reach the core function in order on the addressed document, nothing is carried out after a failed step, the reply is the result of that function; the SyncHandle method evaluated: one request of its own kind, addressed to its namespace argument, each field one of its own parameters, the reply of the actor returned). (R9) net::handle_connection and net::connect_and_sync evaluated on (stream opened, session result, failing close step) cells: success or a reported error on every cell, success carries the document, peer and outcome of the session, the accepting side collects its outcome once after the session and finishes its send stream also after a failed or declined session. NOT decided: 'never waits forever' when a future never completes (liveness), QUIC stream behaviour, mirrored "
+    "stops. (R8) the store actor forwards SyncInitialMessage / SyncProcessMessage one to one and returns the threaded session state (the store-actor handler evaluated with the fields of the request as named tokens and gates / store / replica calls answered by an oracle, each step also failing in turn: the own fields of the request reach the core function in order on the addressed document, nothing is carried out after a failed step, the reply is the result of that function; the SyncHandle method evaluated: one request of its own kind, addressed to its namespace argument, each field one of its own parameters, the reply of the actor returned). (R9) net::handle_connection and net::connect_and_sync evaluated on (stream opened, session result, failing close step) cells: success or a reported error on every cell, success carries the document, peer and outcome of the session, the accepting side collects its outcome once after the session and finishes its send stream also after a failed or declined session. (R10) = C01.R3 accounting: received entries are counted per message before validation, sent ones per reply. NOT decided: 'never waits forever' when a future never completes (liveness), QUIC stream behaviour, mirrored "
     'counters as values, interleaving with other actor messages.'
 )
 ASSUMPTIONS = ["tokio_util FramedRead/FramedWrite and the QUIC streams are trusted", "the object invariant 'progress is Some' holds when a BobState is created (checked: BobState::new)"]
@@ -513,6 +513,23 @@ def r9(ctx):
     ctx.floor("C10.R9", 19)
 
 
+def r10(ctx):
+    """"on success the two sides' sent/received counts mirror each other": each side counts every entry of every message it
+    receives and every entry of every reply it sends - whatever validation later does with them (the accounting rule of C01.R3)"""
+    from . import C01
+    sub = type(ctx)(ctx.prop, ctx.tier, ctx.facts, ctx.cfg)
+    C01.r3(sub)
+    for o in sub.obligations:
+        o = dict(o)
+        o["key"] = re.sub(r"^C\d\d\.R\w+", "C10.R10", o["key"])
+        o["rule"] = "C10.R10"
+        ctx.obligations.append(o)
+        if o["status"] != "holds":
+            ctx.violations.append(o)
+    ctx.analysed_bodies |= sub.analysed_bodies
+    ctx.floor("C10.R10", 3)
+
+
 def run(ctx):
     ctx.run_rule("C10.R1", r1)
     ctx.run_rule("C10.R2", r2)
@@ -522,3 +539,4 @@ def run(ctx):
     ctx.run_rule("C10.R7", r7)
     ctx.run_rule("C10.R8", r8)
     ctx.run_rule("C10.R9", r9)
+    ctx.run_rule("C10.R10", r10)
